@@ -671,6 +671,7 @@ def run(ctx):
     from . import c08
     before = len(ctx.obligations)
     c08.r08d(ctx)
+    c08.r08f(ctx)
     for o in ctx.obligations[before:]:
         o.rule = 'R11g'
     ctx.assume('torch: a set of tensors compares by identity (Tensor.__hash__ is id-based); '
